@@ -1,6 +1,8 @@
 import Infretis.Model.Proto
 import Infretis.Model.Vel
-open Infretis Infretis.Proto Infretis.Vel
+import Infretis.Model.VelRoute
+import Infretis.Model.VelFlow
+open Infretis Infretis.Proto Infretis.Vel Infretis.VelRoute Infretis.VelFlow
 
 /-
 Line protocol of C16 (one request per line):
@@ -13,6 +15,26 @@ Line protocol of C16 (one request per line):
   shoot <engine> <vKin> <vRng> <idx:-|nat> <sameConf:0|1>
     runs prepareShootingPoint on a two-frame file and one System; answers which attributes of the
     copy differ from the source, whether the source object/arrays/files are unchanged
+
+  route <engine> <move:sh|wf|zs> <hasSeg:0|1> <n> k₁ v₁ … kₙ vₙ
+    kᵢ hex-encoded key; vᵢ := b0 | b1 | i<int> | f<rat> | s<hex string> | n (None)
+    runs routeSettings; answer  err:<KeyError|TypeError>:<what>
+      or  ok <ncalls> cfgflag=<0|1> gmxrefuses=<0|1> | <flag> <zm:-|0|1> <dict> | … one field per call … | after <dict>
+    dict := n k₁ v₁ … (same encoding)
+
+  draw <hasRgen:0|1> <beta> <mass:list rat> <sigma_v:-|list rat> <npart> <dim>
+    runs drawMaxwellian; answer  err:value  or  <stream> <method> <loc> <npart> <dim> <scaleSq:list rat>
+  kin <mass:list rat> <cols vel>
+    answer  <kineticEnergyCode> <kineticEnergy>
+  reset <mass:list rat> <cols vel>
+    answer  <cols resetMomentum> | <momentum:list rat>
+  gmass <table entry:-|rat>
+    answer  err:value  or  <mass in electron masses>
+  flow <engine> <gmx:trr|g96|other> <nframes> <idx:-|nat> <srcIsConf:0|1> <stale:0|1> <missing:0|1> <velRev:0|1>
+    runs prepareShootingPointE on one System at (src, idx): src = file 7 (file 100 = conf when srcIsConf) holding
+    frames 0..nframes-1 (frame k: pos [[k]], ids [k]); stale: conf (100) holds frame 99 beforehand; topology ids [1000]
+    answer  err:<nofile|index|value|samefile>
+      or    ok read=<k> ids=<frame|top> conf=<k1,k2,…> genvel=<k> cfg=<file>:<idx> velrev=<0|1> src_same=<0|1> sys_same=<0|1>
 -/
 
 def parseEngine : String → Option Engine
@@ -130,10 +152,140 @@ def handleShoot (toks : List String) : Option String := do
       some s!"copy@{sh.copy} nsys={sh.heap.systems.length} changed={d} src_same={srcSame} objs_same={objsSame} srcfile_same={fileSame} conf_frames={nconf}"
   | _ => none
 
+
+def parseSVal (s : String) : Option SVal :=
+  if s = "b0" then some (.bool false) else if s = "b1" then some (.bool true)
+  else if s = "n" then some .none
+  else match s.toList with
+    | 'i' :: r => (parseInt? (String.ofList r)).map .int
+    | 'f' :: r => (parseRat? (String.ofList r)).map .float
+    | 's' :: r => (unhexStr (String.ofList r)).map .str
+    | _ => none
+
+def showSVal : SVal → String
+  | .bool b => if b then "b1" else "b0"
+  | .int i => "i" ++ toString i
+  | .float q => "f" ++ showRat q
+  | .str t => "s" ++ hexStr t
+  | .none => "n"
+
+def takePairs : Nat → List String → Option (Settings × List String)
+  | 0, rest => some ([], rest)
+  | n + 1, k :: v :: rest => do
+    let k ← unhexStr k
+    let v ← parseSVal v
+    let (t, rest) ← takePairs n rest
+    some ((k, v) :: t, rest)
+  | _, _ => none
+
+def showSettings (d : Settings) : String :=
+  toString d.length ++ d.foldl (fun acc p => acc ++ " " ++ hexStr p.1 ++ " " ++ showSVal p.2) ""
+
+def showB (b : Bool) : String := if b then "1" else "0"
+
+def handleRoute (toks : List String) : Option String := do
+  match toks with
+  | eng :: mv :: seg :: n :: rest =>
+    let eng ← parseEngine eng
+    let mv ← (match mv with | "sh" => some Move.sh | "wf" => some Move.wf | "zs" => some Move.zeroSwap | _ => none)
+    let n ← parseNat? n
+    let (ts, rest) ← takePairs n rest
+    if rest ≠ [] then none
+    match routeSettings mv ts (seg = "1") with
+    | .error (.keyError k) => some s!"err:KeyError:{k}"
+    | .error (.typeError w) => some s!"err:TypeError:{w}"
+    | .ok r =>
+      let head := s!"ok {r.calls.length} cfgflag={showB (effectiveZeroMomentum eng ts)} gmxrefuses={showB (gmxOwnGenvelRefuses ts)}"
+      let calls := r.calls.map (fun d =>
+        let zm := match zmEntry d with | Option.none => "-" | some b => showB b
+        s!"{showB (effectiveZeroMomentum eng d)} {zm} {showSettings d}")
+      some (String.intercalate " | " ([head] ++ calls ++ ["after " ++ showSettings r.tisSetAfter]))
+  | _ => none
+
+def handleDraw (toks : List String) : Option String := do
+  match toks with
+  | hr :: b :: rest =>
+    let b ← parseRat? b
+    let (ms, rest) ← takeList parseRat? rest
+    let (sv, rest) ← takeOptList rest
+    match rest with
+    | [np, dm] =>
+      let np ← parseNat? np
+      let dm ← parseNat? dm
+      match drawMaxwellian (hr = "1") b ms sv np dm with
+      | .error .noRgen => some "err:value"
+      | .ok q => some s!"{showStream q.stream} {q.method} {showRat q.loc} {q.npart} {q.dim} {showOptRats q.scaleSq}"
+    | _ => none
+  | _ => none
+
+def handleKin (toks : List String) : Option String := do
+  let (ms, rest) ← takeList parseRat? toks
+  let (vel, rest) ← takeColsP rest
+  if rest ≠ [] then none
+  some s!"{showRat (kineticEnergyCode ms vel)} {showRat (kineticEnergy ms vel)}"
+
+def handleReset (toks : List String) : Option String := do
+  let (ms, rest) ← takeList parseRat? toks
+  let (vel, rest) ← takeColsP rest
+  if rest ≠ [] then none
+  let v := resetMomentum ms vel
+  some s!"{showCols v} | {showRats (momentum ms v)}"
+
+def handleFlow (toks : List String) : Option String := do
+  match toks with
+  | [eng, gx, nf, idx, sic, stale, missing, vrev] =>
+    let eng ← parseEngine eng
+    let gx ← (match gx with | "trr" => some GmxSrc.trr | "g96" => some GmxSrc.g96 | "other" => some GmxSrc.other | _ => none)
+    let nf ← parseNat? nf
+    let idx : Option Nat ← (if idx = "-" then some none else (parseNat? idx).map some)
+    let mk (k : Nat) : Frame := { pos := [[(k : Rat)]], vel := [[1]], box := some [9], ids := [k] }
+    let srcFile := if sic = "1" then 100 else 7
+    let srcFrames := (List.range nf).map mk
+    let files0 : List (Nat × List Frame) := if missing = "1" then [] else [(srcFile, srcFrames)]
+    let files := if stale = "1" ∧ sic ≠ "1" then files0 ++ [(100, [mk 99])] else files0
+    let sp : Sys := { config := (srcFile, idx), order := 0, pos := 1, vel := 1, box := 1, temperature := 1,
+                      velRev := (vrev = "1"), ekin := some 5, vpot := some (-3) }
+    let h : Heap := { systems := [sp], objs := [[1 / 2], []], files := files }
+    let s : Setup := { engine := eng, temperature := 300, boltzmann := 1, massIn := [1] }
+    match prepareShootingPointE codeVariant codeVariant s gx [1000] h 0 100 101 none [1] [[1]] [7 / 10] with
+    | .error .nofile => some "err:nofile"
+    | .error .index => some "err:index"
+    | .error .value => some "err:value"
+    | .error .sameFile => some "err:samefile"
+    | .ok sh =>
+      let fid (f : Frame) : String := match f.pos with | [[q]] => showRat q | _ => "?"
+      let ids := if sh.readFrame.ids = [1000] then "top" else "frame"
+      let conf := match sh.heap.readFile 100 with | some l => String.intercalate "," (l.map fid) | none => "-"
+      let gv := match sh.heap.readFile 101 with | some [f] => fid f | _ => "?"
+      let cp := sh.heap.systems[sh.copy]?
+      let cfg := match cp with
+        | some c => s!"{c.config.1}:{match c.config.2 with | some i => toString i | none => "-"}"
+        | none => "?"
+      let vr := match cp with | some c => showB c.velRev | none => "?"
+      let srcSame := showB (decide (missing = "1" ∨ srcFile = 100 ∨ sh.heap.readFile srcFile = h.readFile srcFile))
+      let sysSame := showB (decide (sh.heap.systems[0]? = some sp))
+      some s!"ok read={fid sh.readFrame} ids={ids} conf={conf} genvel={gv} cfg={cfg} velrev={vr} src_same={srcSame} sys_same={sysSame}"
+  | _ => none
+
+def handleGmass (toks : List String) : Option String := do
+  match toks with
+  | [t] =>
+    let e ← parseOptRat t
+    match guessParticleMass e with
+    | .error .unknownElement => some "err:value"
+    | .ok m => some (showRat m)
+  | _ => none
+
 def handle (toks : List String) : String :=
   match toks with
   | "mod" :: rest => (handleMod rest).getD "bad-op"
   | "shoot" :: rest => (handleShoot rest).getD "bad-op"
+  | "route" :: rest => (handleRoute rest).getD "bad-op"
+  | "draw" :: rest => (handleDraw rest).getD "bad-op"
+  | "kin" :: rest => (handleKin rest).getD "bad-op"
+  | "reset" :: rest => (handleReset rest).getD "bad-op"
+  | "flow" :: rest => (handleFlow rest).getD "bad-op"
+  | "gmass" :: rest => (handleGmass rest).getD "bad-op"
   | _ => "bad-op"
 
 def main : IO Unit := mainWith handle
